@@ -1,6 +1,6 @@
 #!/bin/sh
 # run every script that is expected to be byte-identical between driver and harness
 cd "$(dirname "$0")"
-for s in protocol.txt edge_t.txt edge_b.txt edge_z.txt rand_t.txt rand_b.txt rand_z.txt rand_mixed.txt; do
+for s in protocol.txt edge_t.txt edge_p.txt edge_b.txt edge_z.txt edge_u_nostall.txt rand_t.txt rand_p.txt rand_b.txt rand_z.txt rand_u.txt rand_mixed.txt; do
   printf '%-16s ' "$s"; ./cmp.sh "$s" "$@" | head -20
 done
